@@ -180,15 +180,22 @@ class RepoInterp:
         v = platform_call(fname, fval, call, args, kwargs)
         if v is not None:
             return v
-        callee = self.resolve(call)
+        callee = self.resolve(call, fval)
         if callee is not None and (callee.fq in self.inline or callee.qualname in self.inline):
-            return self.inline_call(callee, call, fval, args, kwargs, st)
+            return self.inline_call(callee, call, fval if isinstance(call.func, ast.Attribute) else None, args, kwargs, st)
         return None
 
     self_class: Any = None  # dynamic class of `self` in the scenario (method resolution starts there)
 
-    def resolve(self, call: ast.Call) -> Optional[FunctionInfo]:
+    def resolve(self, call: ast.Call, fval: Optional[V] = None) -> Optional[FunctionInfo]:
         f = call.func
+        if isinstance(f, ast.Name) and isinstance(fval, S) and fval.name.startswith("func:"):
+            # a call through a local variable / parameter that holds a function of the package
+            fq = fval.name[len("func:"):]
+            for modname in sorted(self.repo.modules, key=len, reverse=True):
+                if fq.startswith(modname + "."):
+                    return self.repo.modules[modname].functions.get(fq[len(modname) + 1:])
+            return None
         if self.self_class is not None and isinstance(f, ast.Attribute) and isinstance(f.value, ast.Name) and f.value.id == "self":
             m = self.repo.method(self.self_class, f.attr)
             if m is not None:
@@ -308,6 +315,12 @@ def platform_call(fname: Optional[str], fval: Optional[V], call: ast.Call, args:
             if args[0].v in _opcode.opmap:
                 return K(_opcode.opmap[args[0].v])
             return args[1] if len(args) > 1 else K(None)
+    if isinstance(fval, K) and isinstance(fval.v, str) and isinstance(call.func, ast.Attribute) and call.func.attr == "format" \
+            and all(isinstance(a, K) and isinstance(a.v, (str, int)) for a in list(args) + list(kwargs.values())):
+        try:
+            return K(fval.v.format(*[a.v for a in args], **{k: v.v for k, v in kwargs.items()}))
+        except Exception:
+            return None
     if isinstance(fval, K) and isinstance(fval.v, str) and isinstance(call.func, ast.Attribute) and call.func.attr in _STR_FOLD \
             and all(isinstance(a, K) for a in args) and not kwargs:
         try:
